@@ -169,6 +169,26 @@ pub mod bodies {
             None => { assert!(a.year() == -262143); }
         }
     }
+    /// A-dec.round (BOUNDED: every i32 mantissa at the stated scale): the real rust_decimal rounds to pence with midpoints away from zero,
+    /// which is what shim/decimal.rs assumes of `round_dp_with_strategy(2, MidpointAwayFromZero)` and what C17.round_mode rests on.
+    fn dec_round_check(m: i32, scale: u32, p: i64) {
+        use rust_decimal::{Decimal, RoundingStrategy};
+        let d = Decimal::new(m as i64, scale);
+        let r = d.round_dp_with_strategy(2, RoundingStrategy::MidpointAwayFromZero);
+        let a = (m as i64).abs();
+        let q = (a + p / 2) / p;                       // half away from zero on the magnitude
+        let expect = if m < 0 { -q } else { q };
+        assert!(r == Decimal::new(expect, 2));
+    }
+    pub fn k_dec_round_scale3_bounded<S: Src>(s: &mut S) { dec_round_check(s.i32(), 3, 10) }
+    pub fn k_dec_round_scale4_bounded<S: Src>(s: &mut S) { dec_round_check(s.i32(), 4, 100) }
+    /// a value with at most two decimal places is returned unchanged
+    pub fn k_dec_round_le2_bounded<S: Src>(s: &mut S) {
+        use rust_decimal::{Decimal, RoundingStrategy};
+        let m = s.i32(); let sc = s.u32(); s.assume(sc <= 2);
+        let d = Decimal::new(m as i64, sc);
+        assert!(d.round_dp_with_strategy(2, RoundingStrategy::MidpointAwayFromZero) == d);
+    }
     /// C01.window_edges (decision logic, complete over every i64 day difference): with the two tests exactly as written in
     /// match_bed_and_breakfast, a purchase is taken iff 1 <= days <= 30: day 30 is in, day 31 and day 0 (or earlier) are out.
     pub fn k_window_logic<S: Src>(s: &mut S) {
@@ -203,7 +223,7 @@ impl Src for Concrete {
     fn assume(&mut self, b: bool) { if !b { self.assumption_failed = true; panic!("ASSUMPTION-VIOLATED"); } }
     fn cover(&mut self, _b: bool) {}
 }
-pub const HARNESSES: &[&str] = &["k_taxyear_from_date", "k_taxyear_new_and_bounds", "k_taxyear_window", "k_filter_window_eq_from_date", "k_explain_year_eq_from_date", "k_chrono_ymd_roundtrip", "k_chrono_april", "k_chrono_order", "k_chrono_succ", "k_chrono_sub_is_day_difference_bounded", "k_chrono_sub_days", "k_window_logic", "k_window_days_diff"];
+pub const HARNESSES: &[&str] = &["k_taxyear_from_date", "k_taxyear_new_and_bounds", "k_taxyear_window", "k_filter_window_eq_from_date", "k_explain_year_eq_from_date", "k_chrono_ymd_roundtrip", "k_chrono_april", "k_chrono_order", "k_chrono_succ", "k_chrono_sub_is_day_difference_bounded", "k_chrono_sub_days", "k_window_logic", "k_window_days_diff", "k_dec_round_scale3_bounded", "k_dec_round_scale4_bounded", "k_dec_round_le2_bounded"];
 pub fn run_concrete(name: &str, vals: Vec<i128>) {
     let mut c = Concrete { vals, pos: 0, assumption_failed: false };
     match name {
@@ -220,6 +240,9 @@ pub fn run_concrete(name: &str, vals: Vec<i128>) {
         "k_chrono_sub_days" => bodies::k_chrono_sub_days(&mut c),
         "k_window_logic" => bodies::k_window_logic(&mut c),
         "k_window_days_diff" => bodies::k_window_days_diff(&mut c),
+        "k_dec_round_scale3_bounded" => bodies::k_dec_round_scale3_bounded(&mut c),
+        "k_dec_round_scale4_bounded" => bodies::k_dec_round_scale4_bounded(&mut c),
+        "k_dec_round_le2_bounded" => bodies::k_dec_round_le2_bounded(&mut c),
         _ => panic!("unknown harness"),
     }
 }
@@ -246,4 +269,8 @@ mod proofs {
     #[kani::proof] fn k_chrono_sub_days() { super::bodies::k_chrono_sub_days(&mut K) }
     #[kani::proof] fn k_window_logic() { super::bodies::k_window_logic(&mut K) }
     #[kani::proof] fn k_window_days_diff() { super::bodies::k_window_days_diff(&mut K) }
+    // rust_decimal's 96-bit division loops: at most 3 words, unwinding assertions on (complete for the stated mantissa range when they pass)
+    #[kani::proof] #[kani::unwind(8)] fn k_dec_round_scale3_bounded() { super::bodies::k_dec_round_scale3_bounded(&mut K) }
+    #[kani::proof] #[kani::unwind(8)] fn k_dec_round_scale4_bounded() { super::bodies::k_dec_round_scale4_bounded(&mut K) }
+    #[kani::proof] #[kani::unwind(8)] fn k_dec_round_le2_bounded() { super::bodies::k_dec_round_le2_bounded(&mut K) }
 }
